@@ -282,9 +282,13 @@ func (tb *TB) Term(v ssa.Value) *Term {
 	// cycleTo < depth: the term refers (through a Loop marker) to a value that is still
 	// being described above v, so it is only valid inside that description
 	inner := tb.cycleTo
-	if inner >= depth {
+	if inner == 1<<30 {
+		// no marker at all: the description is the same wherever it is asked for. (A term
+		// holding a marker for v itself is a valid description of v, but embedded in the
+		// description of another value of the same cycle it would show up in place of the
+		// marker that value's own description has there, so it is not remembered either.)
 		tb.memo[v] = t
-	} else if inner < saved {
+	} else if inner < depth && inner < saved {
 		saved = inner
 	}
 	tb.cycleTo = saved
